@@ -326,9 +326,9 @@ def isWitnessProgram (scr : Bytes) : Option (Nat × Bytes) :=
 def isPayToScript (scr : Bytes) : Bool :=
   scr.length == 23 && scr.getD 0 0 == 0xa9 && scr.getD 1 0 == 0x14 && scr.getD 22 0 == 0x87
 
-/-- bytes `btc.WritePutLen(w, data_len)` writes (note `<= OP_PUSHDATA1`, as in the source) -/
+/-- bytes `btc.WritePutLen(w, data_len)` writes (`< OP_PUSHDATA1`, as in the source since the fix of the 76-byte slip) -/
 def writePutLen (n : Nat) : Bytes :=
-  if n ≤ 0x4c then [UInt8.ofNat n]
+  if n < 0x4c then [UInt8.ofNat n]
   else if n < 0x100 then [0x4c, UInt8.ofNat n]
   else if n < 0x10000 then 0x4d :: leBytes 2 n
   else 0x4e :: leBytes 4 n
